@@ -50,6 +50,7 @@ def plan(tier, seed):
     specs = [{'kind': 'gen', 'docs': ndocs // shards, 'gshard': s} for s in range(shards)]
     specs.append({'kind': 'corpus'})
     specs.append({'kind': 'hints'})
+    specs.append({'kind': 'laxwrap', 'docs': 12 if tier == 'quick' else 120})
     counts = [0, 1, 3, 255, 256, 257, 512] if tier == 'quick' else [0, 1, 2, 3, 100, 254, 255, 256, 257, 300, 511, 512, 513, 768, 1024]
     for i in range(0, len(counts), 2):
         specs.append({'kind': 'cli', 'counts': counts[i:i + 2], 'no_cov': True})
@@ -302,7 +303,11 @@ def compare_document(res, xmlschema, schema, text, label, case, has_qname_values
                           f'{label}: {route} on {kind} raised {e!r}'[:400])
             continue
         if 'valid' in out and out['valid'] != ref_valid:
-            res.violation(f'verdict-differs:{route}', dict(case, route=route, source=kind),
+            mech = f'verdict-differs:{route}'
+            if kind == 'XMLResource_lazy' and case.get('fault_below_undeclared_chunk') and out['valid']:
+                # listed: a streamed chunk without a declaration is skipped, declared descendants included
+                mech = 'verdict-differs:lazy-resource-skips-undeclared-chunk-admitted-by-a-lax-wildcard'
+            res.violation(mech, dict(case, route=route, source=kind),
                           f'{label}: {route} on {kind} says valid={out["valid"]}, iter_errors on str says {ref_valid} ({ref_first})')
             continue
         loose = kind.startswith('et_')   # a bare ElementTree element carries no prefix declarations
@@ -403,6 +408,44 @@ def run_gen(spec, res):
                                  spec['tier'], (fam, fault, 'nodefaults'), {'use_defaults': False})
             if len(res.samples) < 2:
                 res.sample({'family': fam, 'fault': fault, 'version': version, 'doc_chars': len(text)})
+
+
+def run_laxwrap(spec, res):
+    """Declared elements below undeclared wrappers that a lax wildcard admits (generator of C19's shard laxwrap): the routes
+    that only validate and the routes that build data walk such a subtree through different code."""
+    import copy
+    from checks.c19_error_location import LAXWRAP_XSD, laxwrap_tree, laxwrap_render
+    xmlschema = env.activate_repo()
+    rng = env.rng_for(PROPERTY, spec['tier'], spec['seed'], 'laxwrap')
+    scratch = tempfile.mkdtemp(prefix='c04-')
+    for version, cls in (('1.0', xmlschema.XMLSchema10), ('1.1', xmlschema.XMLSchema11)):
+        schema = cls(LAXWRAP_XSD)
+        for d in range(spec['docs']):
+            root = ['root', {}, None, [['head', {}, 'h', []]] + [laxwrap_tree(rng) for _ in range(rng.randint(1, 3))]]
+            variants = [(root, 'valid')]
+            declared = []
+
+            def walk(n):
+                for c in n[3]:
+                    if c[0] in ('qty', 'flag'):
+                        declared.append(c)
+                    walk(c)
+            damaged = copy.deepcopy(root)
+            walk(damaged)
+            below = False
+            if declared:
+                node = rng.choice(declared)
+                node[2] = 'two'
+                # is the damaged node inside a depth-1 element that has no declaration (a chunk of a lazy resource)?
+                below = not any(c is node for c in damaged[3])
+                variants.append((damaged, 'bad_value'))
+            for tree, fault in variants:
+                text = laxwrap_render(tree)
+                case = {'family': 'laxwrap', 'version': version, 'doc': text, 'fault': fault}
+                if fault != 'valid' and below:
+                    case['fault_below_undeclared_chunk'] = True
+                res.count('laxwrap:documents:' + fault)
+                compare_document(res, xmlschema, schema, text, f'laxwrap/{fault}', case, False, scratch, rng, spec['tier'], ('laxwrap', fault))
 
 
 def run_corpus(spec, res):
@@ -551,7 +594,7 @@ def run_cli(spec, res):
 
 
 def run_shard(spec, res):
-    {'gen': run_gen, 'corpus': run_corpus, 'cli': run_cli, 'hints': run_hints}[spec['kind']](spec, res)
+    {'gen': run_gen, 'corpus': run_corpus, 'cli': run_cli, 'hints': run_hints, 'laxwrap': run_laxwrap}[spec['kind']](spec, res)
 
 
 def finalize(res, tier):
@@ -580,7 +623,11 @@ def replay(case):
         run_corpus({'tier': 'thorough', 'seed': 0}, res)
     else:
         cls = xmlschema.XMLSchema10 if case['version'] == '1.0' else xmlschema.XMLSchema11
-        schema = cls(D.family_xsd(case['family'], case['version']))
+        if case['family'] == 'laxwrap':
+            from checks.c19_error_location import LAXWRAP_XSD
+            schema = cls(LAXWRAP_XSD)
+        else:
+            schema = cls(D.family_xsd(case['family'], case['version']))
         compare_document(res, xmlschema, schema, case['doc'], 'replay', case, 'xsi:type' in case['doc'],
                          tempfile.mkdtemp(prefix='c04-'), random.Random(0), 'thorough', ('replay',), case.get('options'))
     for v in res.violations:
